@@ -9,6 +9,18 @@ _PENDING = "no registered check yet at this commit (model and correspondence und
 NOT_APPLICABLE = {f"C{i:02d}": _PENDING for i in range(1, 21)}
 
 META = {
+    "C18": {
+        "text": ("PARTIAL. Proved in Lean for all coordinates: interleaving two 32-bit coordinates and de-interleaving (even bits, and "
+                 "odd bits after a shift) is the identity, the encoding is injective, Morton cells nest and a cell is the pair of "
+                 "coordinate prefixes (so a point's indexed prefix terms are exactly the cells containing it). The bit recursion is "
+                 "compared with numeric.Interleave/Deinterleave on every run. The floating-point geometry (scaling, haversine with "
+                 "latitude-dependent diameter, rectangle construction across date line and poles, polygon containment, s2) is "
+                 "compared end to end with an independent float oracle using margins, with and without the s2 plugin."),
+        "design_ref": "DESIGN.md section 4, C18",
+        "note": ("trusted: Lean kernel, Go harness incl. its float oracle. Floating-point behaviour is outside what the Lean model can "
+                 "exhibit; that part of the check is differential exploration and is labelled so."),
+        "technique": "Lean 4 proof for the integer Morton layer + differential exploration of float geometry against an oracle with margins",
+    },
     "C19": {
         "text": ("PARTIAL. Proved in Lean for every input: the character-class tokenizer (base of the letter and whitespace tokenizers) "
                  "emits tokens with 0 <= Start < End <= len(input), non-overlapping in increasing order, positions exactly 1..n (loop "
